@@ -168,8 +168,16 @@ def run(ctx):
             df["gc"] = np.linspace(0, 1, len(df)); df["name"] = [f"b{k}" for k in range(len(df))]
         elif kind == "unused-category" and isinstance(df["chrom"].dtype, pd.CategoricalDtype):
             df["chrom"] = df["chrom"].cat.add_categories(["zz_unused"])
+        elif kind == "unused-category-first":      # a declared chromosome without bins AHEAD of the ones that have bins
+            df["chrom"] = pd.Categorical(df["chrom"].astype(str), categories=["aa_unused"] + names_for(len(blocks)) + ["zz_unused"], ordered=True)
+        elif kind == "unused-category-middle" and len(blocks) >= 2:
+            nm = names_for(len(blocks))
+            df["chrom"] = pd.Categorical(df["chrom"].astype(str), categories=nm[:1] + ["mm_unused"] + nm[1:], ordered=True)
+        elif kind == "filtered-middle" and len(blocks) >= 3:
+            pass      # handled by the caller: a middle chromosome's rows are dropped from a categorical table
         return df
-    REPS = ["plain", "restart", "reversed", "offset", "strings", "int32", "uint64", "extra", "unused-category"]
+    REPS = ["plain", "restart", "reversed", "offset", "strings", "int32", "uint64", "extra", "unused-category",
+            "unused-category-first", "unused-category-middle"]
     ncorpus = 4
     expanded = []
     for k, blocks in enumerate(blocks_list):
@@ -188,7 +196,7 @@ def run(ctx):
             ctx.fail({"fn": "get_binsize/get_chromsizes", "blocks": blocks, "representation": kd}, {"detail": "the caller's bin table was modified"}, None)
         names = names_for(len(blocks))
         impl2.append((None if bs is None else int(bs),
-                      [(names.index(str(n)), int(l)) for n, l in zip(cs.index, cs.values)]))
+                      [(names.index(str(n)) if str(n) in names else -1, int(l)) for n, l in zip(cs.index, cs.values)]))
     exprs = []
     for blocks in blocks_list:
         t = C.lst([C.tup(C.z(c), C.z(s_), C.z(e)) for blk in blocks for (c, s_, e) in blk])
